@@ -774,7 +774,7 @@ def _dataclass(args, kw):
                         cls.ns[name] = v.default
                     else:
                         del cls.ns[name]
-                elif isinstance(v, (PropertyVal, FunctionVal)):
+                elif isinstance(v, PropertyVal):
                     pass
                 else:
                     f.update(has_default=True, default=v)
